@@ -1488,10 +1488,13 @@ class Parameter(_ParameterBase):
         event = Event(what=attribute, name=self.name, obj=None, cls=self.owner,
                       old=old, new=new, type=None)
         # (a copy: a callback may unwatch while the event is dispatched)
-        for watcher in list(self.watchers[attribute]):
-            self.owner.param._call_watcher(watcher, event)
-        if not self.owner.param._BATCH_WATCH:
-            self.owner.param._batch_call_watchers()
+        try:
+            for watcher in list(self.watchers[attribute]):
+                self.owner.param._call_watcher(watcher, event)
+        finally:
+            # (also when a watcher raises, see __set__)
+            if not self.owner.param._BATCH_WATCH:
+                self.owner.param._batch_call_watchers()
 
     def __getattribute__(self, key):
         """
@@ -1679,10 +1682,15 @@ class Parameter(_ParameterBase):
                       old=_old, new=val, type=None)
 
         # Copy watchers here since they may be modified inplace during iteration
-        for watcher in sorted(watchers, key=lambda w: w.precedence):
-            obj.param._call_watcher(watcher, event)
-        if not obj.param._BATCH_WATCH:
-            obj.param._batch_call_watchers()
+        try:
+            for watcher in sorted(watchers, key=lambda w: w.precedence):
+                obj.param._call_watcher(watcher, event)
+        finally:
+            # (also when a watcher raises: what queued watchers that ran
+            # before it assigned is announced now, not left in the queue
+            # for some later, unrelated assignment)
+            if not obj.param._BATCH_WATCH:
+                obj.param._batch_call_watchers()
 
     def _validate_value(self, value, allow_None):
         """Validate the parameter value against constraints.
@@ -2929,13 +2937,20 @@ class Parameters:
             self_._events = []
             self_._state_watchers = []
 
-            for watcher in sorted(watchers, key=lambda w: w.precedence):
-                events = [self_._update_event_type(watcher, event_dict[(name, watcher.what)],
-                                                   self_._TRIGGER)
-                          for name in watcher.parameter_names
-                          if (name, watcher.what) in event_dict]
-                with _batch_call_watchers(self_.self_or_cls, enable=watcher.queued, run=False):
-                    self_._execute_watcher(watcher, events)
+            try:
+                for watcher in sorted(watchers, key=lambda w: w.precedence):
+                    events = [self_._update_event_type(watcher, event_dict[(name, watcher.what)],
+                                                       self_._TRIGGER)
+                              for name in watcher.parameter_names
+                              if (name, watcher.what) in event_dict]
+                    with _batch_call_watchers(self_.self_or_cls, enable=watcher.queued, run=False):
+                        self_._execute_watcher(watcher, events)
+            except BaseException:
+                # A watcher raised: what queued watchers of this round
+                # assigned before it is still announced before the
+                # exception goes on.
+                self_._batch_call_watchers()
+                raise
     # Please update the docstring with better description and examples
     # I've (MarcSkovMadsen) not been able to understand this. Its probably because I lack context.
     # Its not mentioned in the documentation.
